@@ -84,7 +84,7 @@ func versionCases(fn *ssa.Function, isV func(ssa.Value) bool) (cases []int64, ha
 func c19(c *Ctx) {
 	p, r := c.P, c.R
 	r.Technique = "single-source value-flow check of every version-dependent branch; sibling agreement of the version sets handled by accept building, accept parsing and the advertised default; must-pass-through (cut) checks for error propagation and error-gated caching in the negotiation helper"
-	r.Explanation = "Decides: (R1) every version-dependent branch (accept building, accept parsing, uTP framing in both directions, the RPC's bit-list conversion) takes its operand from the one negotiation helper applied to a peer record, and every caller of the helper returns without transfer when it reports an error; the record given to the helper is the one the exchange came with (followed through parameters and captured variables to the talk handler), never one looked up in the routing table; the local version list is the local record's entry (or the default) as it is, not a part or rearrangement of it; (R2) the version sets handled by accept building and accept parsing are equal to each other and to the advertised default set, both reject other versions with the unsupported-version error, and the uTP encoder and decoder dispatch on the same version constant to the inverse pair of framing functions, which are called only under a comparison of the negotiated version with a constant; (R3) in the helper: a cached value is returned as is, an absent record key yields the first local version, the computed error is returned, the result is the highest-common-version function applied to (local versions, peer versions), and the cache is written only on paths where the error is nil. Not decided: the max-of-intersection computation over all subsets (value level), live transfers."
+	r.Explanation = "Decides: (R1) every version-dependent branch (accept building, accept parsing, uTP framing in both directions, the RPC's bit-list conversion) takes its operand from the one negotiation helper applied to a peer record, and every caller of the helper returns without transfer when it reports an error; the record given to the helper is the one the exchange came with (followed through parameters and captured variables to the talk handler), never one looked up in the routing table; the local version list is the local record's entry (or the default) as it is, not a part or rearrangement of it; (R2) the version sets handled by accept building and accept parsing are equal to each other and to the advertised default set, both reject other versions with the unsupported-version error, and the uTP encoder and decoder dispatch on the same version constant to the inverse pair of framing functions, which are called only under a comparison of the negotiated version with a constant; (R3) in the helper: a cached value is returned as is, an absent record key yields the first local version, the computed error is returned, the result is the highest-common-version function applied to (local versions, peer versions), and the cache is written only on paths where the error is nil. The highest-common-version function keeps no version number in a word used as a bit set (no shift by a count that can reach the word's width). Not decided: the max-of-intersection computation over all subsets (value level), live transfers."
 	r.Assumptions = []string{"enr.IsNotFound identifies an absent key", "the versions cache is a faithful map"}
 	r.Floor("R1.single-source", 5)
 	r.Floor("R1.error-stops", 5)
@@ -733,6 +733,32 @@ func checkHighestCommon(c *Ctx, rule string, hf *ssa.Function) {
 		}
 	}
 	r.Check(okAll, rule, hname+" considers-every-element", p.Pos(hf.Pos()), "no success exit from inside a loop: every element is considered", "the function can return a version before having looked at every element of the lists")
+	// (3) every version number 0..255 can be told apart: a version used as a shift count (a bit
+	// set in a machine word) is lost from the word's width on - the shift yields 0, so such a
+	// version is never found to be common
+	nShift, bad := 0, ""
+	for _, b := range hf.Blocks {
+		for _, in := range b.Instrs {
+			bo, ok := in.(*ssa.BinOp)
+			if !ok || (bo.Op != token.SHL && bo.Op != token.SHR) {
+				continue
+			}
+			if _, isC := core.ConstInt(bo.Y); isC {
+				continue
+			}
+			bt, ok := bo.Type().Underlying().(*types.Basic)
+			if !ok {
+				continue
+			}
+			width := float64(8 * types.SizesFor("gc", "amd64").Sizeof(bt))
+			nShift++
+			rg := p.RangeOf(bo.Y, b)
+			if !rg.HasHi || rg.Hi >= width {
+				bad = fmt.Sprintf("%s: shift of a %d-bit word by a count that is not known to be below %d", p.Pos(bo.Pos()), int(width), int(width))
+			}
+		}
+	}
+	r.Check(bad == "", rule, hname+" every-version-representable", p.Pos(hf.Pos()), fmt.Sprintf("%d variable shift(s), none by a count that can reach the word's width", nShift), "version numbers are kept in a bit set that cannot hold all of 0..255 ("+bad+"): a version at or above the word's width is dropped silently, two nodes that share only such versions find nothing in common and a higher common version loses to a lower one")
 }
 
 // staleRecordSource follows a peer record back through phis, parameters (to every call site, up
